@@ -59,6 +59,25 @@ def gen_version(r, ver, rich):
         desc[n] = ("func", n, None)
     desc["Dm"] = ("class", None, {"m": "method", "s": "static", "c": "clsm"}, None)
     classes = []
+    # module-level dunder names of the SOURCE (not of the import system): they appear, change and disappear
+    tail = []
+    if r.random() < .4:
+        tail.append("__version__ = '1.%d'" % pick(0, ver))
+        desc["__version__"] = ("data",)
+    if r.random() < .35:
+        tail += ["def __getattr__(name):",
+                 "    if name.startswith('lazy_'): return ('lazy', name, %d)" % ver,
+                 "    raise AttributeError(name)"]
+        desc["__getattr__"] = ("func", "__getattr__", None)
+    if r.random() < .25:
+        tail.append("def __dir__(): return ['dflt', 'kwd', 'v%d']" % ver)
+        desc["__dir__"] = ("func", "__dir__", None)
+    if r.random() < .3:
+        tail.append("__x__ = %d" % (8000 + ver))
+        desc["__x__"] = ("data",)
+    if r.random() < .4:
+        tail.append("__all__ = %r" % (r.sample(["dflt", "kwd", "ann", "docf", "Dm", "mk"], r.randint(1, 4)),))
+        desc["__all__"] = ("list",)
     for n in NAMES:
         if r.random() < .22:
             continue
@@ -70,6 +89,12 @@ def gen_version(r, ver, rich):
             mem, body = {}, []
             if r.random() < .3:
                 body.append('    """doc of %s v%d"""' % (n, ver))
+            if r.random() < .3:
+                body.append("    def __repr__(self): return '%s<%d>'" % (n, ver))
+            if r.random() < .25:
+                body.append("    def __len__(self): return %d" % (10 + ver))
+            if r.random() < .25:
+                body.append("    __tag__ = %d" % (900 + ver))
             for m in ["m1", "m2", "s", "c", "p", "x"]:
                 if r.random() < .35:
                     continue
@@ -121,7 +146,7 @@ def gen_version(r, ver, rich):
             lines.append("l1 = [1, %d]" % ver)
             desc[n] = ("list",)
         elif n == "dd":
-            funcs = [x for x, d in desc.items() if d[0] == "func" and d[2] is None]
+            funcs = [x for x, d in desc.items() if d[0] == "func" and d[2] is None and not x.startswith("__")]
             ent = ["'v': %d" % ver]
             if funcs:
                 ent.append("'fn': %s" % r.choice(funcs))
@@ -148,7 +173,7 @@ def gen_version(r, ver, rich):
                 lines.append("%s = mk(%d)" % (n, cv))
                 desc[n] = ("func", "inner", ("int", cv, "mk"))
             elif k < .75:
-                funcs = [x for x, d in desc.items() if d[0] == "func" and d[2] is None]
+                funcs = [x for x, d in desc.items() if d[0] == "func" and d[2] is None and not x.startswith("__")]
                 if funcs:
                     t = r.choice(funcs)
                     lines.append("%s = mk2(%s)" % (n, t))
@@ -167,6 +192,7 @@ def gen_version(r, ver, rich):
                 desc[n] = ("data",)
     for n in ("mk", "mk2", "deco"):
         desc[n] = ("func", n, None)
+    lines += tail
     return "\n".join(lines) + "\n", desc
 
 
@@ -404,13 +430,20 @@ def _call(f, *a):
         r = f(*a)
         return '<function %s>' % r.__qualname__ if isinstance(r, types.FunctionType) else repr(r)
     except Exception as e: return 'EXC ' + type(e).__name__
+_STD_CLASS_DUNDERS = {'__module__', '__dict__', '__weakref__', '__doc__', '__qualname__', '__slots__', '__annotations__',
+                      '__firstlineno__', '__static_attributes__'}
 def _members(c, inst):
     out = {}
     names = set()
     for k in c.__mro__:
         if k is not object: names |= set(vars(k))
     for k in sorted(names):
-        if k.startswith('__'): continue
+        if k in _STD_CLASS_DUNDERS: continue
+        if k.startswith('__'):
+            # a user-defined special member (class-level dunder): presence + what it gives
+            v = getattr(inst if inst is not None else c, k, 'MISSING')
+            out[k] = (_call(v) if callable(v) and k not in ('__init__', '__new__') else repr(v)) if not isinstance(v, type) else 'class'
+            continue
         try: v = getattr(inst if inst is not None else c, k)
         except Exception as e:
             out[k] = 'EXC ' + type(e).__name__; continue
@@ -437,11 +470,25 @@ def obs_val(v, depth=0):
         sl = [(k, repr(getattr(v, k))) for k in getattr(v, '__slots__', ()) if hasattr(v, k)]
         return ['inst', type(v).__name__, sorted((k, repr(x)) for k, x in d.items()) if isinstance(d, dict) else None, sl, _members(type(v), v)]
     return ['data', repr(v)]
+# module attributes set by the import system / by xreload itself, not by the source
+LOADER_DUNDERS = ('__builtins__', '__cached__', '__file__', '__loader__', '__name__', '__package__', '__spec__',
+                  '__doc__', '__path__', '__loadtime__')
 def observe(mod):
     out = {}
     for n, v in sorted(vars(mod).items()):
-        if n.startswith('__'): continue
+        if n in LOADER_DUNDERS: continue
         out[n] = obs_val(v)
+    # behaviour that module-level dunders govern: the star import, PEP 562 __getattr__ / __dir__
+    ns = {}
+    try:
+        exec('from %s import *' % mod.__name__, ns)
+        out['<star import>'] = sorted(k for k in ns if k != '__builtins__')
+    except Exception as e:
+        out['<star import>'] = 'EXC ' + type(e).__name__
+    try: out['<lazy attribute>'] = repr(getattr(mod, 'lazy_probe'))
+    except Exception as e: out['<lazy attribute>'] = 'EXC ' + type(e).__name__
+    try: out['<dir>'] = sorted(k for k in dir(mod) if k not in LOADER_DUNDERS)
+    except Exception as e: out['<dir>'] = 'EXC ' + type(e).__name__
     dn = {}
     for k in ('__package__', '__name__', '__doc__'):
         dn[k] = repr(getattr(mod, k, 'MISSING'))
@@ -628,7 +675,7 @@ def impl_case(c):
         cur = dict(vars(mod))
         ident = {}
         for n in set(captured) | set(cur):
-            if n.startswith("__"):
+            if n in obs_ns["LOADER_DUNDERS"]:
                 continue
             if n not in cur:
                 ident[n] = "deleted"
@@ -640,7 +687,7 @@ def impl_case(c):
         out["repointed"] = sorted(n for n, v in cur.items() if isinstance(v, type) and captured.get(n) is v and
                                   any(getattr(b, "__module__", None) == name and cur.get(b.__name__) is not b for b in v.__bases__))
         out["via_old_refs"] = {n: obs_ns["obs_val"](v) for n, v in captured.items()
-                               if not n.startswith("__") and ident.get(n) == "kept"}
+                               if n not in obs_ns["LOADER_DUNDERS"] and ident.get(n) == "kept"}
         out["after"] = obs_ns["observe"](mod)
         out["registry_is_module"] = sys.modules.get(name) is mod
         env = {"PATH": os.environ.get("PATH", "/usr/bin:/bin"), "PYTHONDONTWRITEBYTECODE": "1", "PYTHONHASHSEED": "0", "LC_ALL": "C.UTF-8"}
